@@ -35,6 +35,12 @@ Imports nothing (the driver links this file).
 -/
 namespace KeepAlive
 
+/-- apply `f` to the `i`-th element -/
+def modifyAt {α : Type} (f : α → α) : List α → Nat → List α
+  | [], _ => []
+  | a :: r, 0 => f a :: r
+  | a :: r, i + 1 => a :: modifyAt f r i
+
 /-- the thread that dropped the last owning reference: `Parent`'s field drops -/
 inductive PPc where
   | idle   -- some owning reference is still alive
@@ -192,7 +198,7 @@ def allClosed (l : List Slot) : Bool := l.all (·.closedAs.isSome)
 
 def closedVals (l : List Slot) : List (Option Nat) := l.map fun sl => sl.closedAs.getD none
 
-def setSlot (s : St) (i : Nat) (f : Slot → Slot) : St := { s with slots := s.slots.modify i f }
+def setSlot (s : St) (i : Nat) (f : Slot → Slot) : St := { s with slots := modifyAt f s.slots i }
 
 def step (s : St) : Ev → Option St
   | .newFG => if ownerUsable s then some { s with gS := s.gS + 1, fgLive := s.fgLive + 1 } else none
